@@ -4,6 +4,7 @@ import (
 	"fmt"
 	"math"
 	"runtime/debug"
+	"strings"
 	"time"
 
 	"pgregory.net/rapid"
@@ -51,6 +52,9 @@ type Profile struct {
 	IndexedLastPct int // percentage of queries forced to end on an indexed path
 	AndOnlyPct     int // percentage of chains that use And only
 	BadQueryPct    int // percentage of queries made unevaluable on purpose
+	// the program starts with one Bulk (chunk size 1: stops at the first conflicting
+	// member) of up to SeedBatch fresh documents, so queries meet a populated collection
+	SeedBatch int
 	// no two distinct batch members with one uuid (C05/C06: the per-object
 	// before/after oracle would need the intermediate member values)
 	NoCopyItems bool
@@ -431,6 +435,24 @@ func (g *G) Doc() *Doc {
 			d.H.Bump = true
 		case 2:
 			d.H.RejectS = rapid.SampledFrom([]string{"A", "a", "AB", "ab", "ax", "AX", "b"}).Draw(g.t, "rejects")
+			// often aim at what S becomes after Transform and case canonicalisation, so that
+			// validity really depends on the transformed value
+			if g.pct("aim") < 60 {
+				target := d.S
+				if g.pct("aimappend") < 50 {
+					d.H.Append = pickU(g, []string{"x", "Y"}, "aimappendv")
+					target += d.H.Append
+				}
+				switch g.uni(3, "aimcase") {
+				case 0:
+					target = strings.ToUpper(target)
+				case 1:
+					target = strings.ToLower(target)
+				}
+				if target != "" {
+					d.H.RejectS = target
+				}
+			}
 		case 3:
 			d.H.RejectLen = rapid.IntRange(1, 4).Draw(g.t, "rejectlen")
 		}
@@ -801,6 +823,16 @@ func (g *G) spoil(q *Query) {
 func (g *G) Program() *Program {
 	g.cfg = g.Config()
 	prog := &Program{Property: g.p.Property, Cfg: g.cfg}
+	if g.p.SeedBatch > 0 {
+		// start from a populated collection: one batch of fresh documents
+		var items []BatchItem
+		for i, k := 0, 1+g.uni(g.p.SeedBatch, "nseed"); i < k; i++ {
+			d := g.Doc()
+			d.H = Hooks{}
+			items = append(items, BatchItem{Kind: "new", D: d})
+		}
+		prog.Ops = append(prog.Ops, Op{Op: "bulk", Items: items, CSize: 1})
+	}
 	n := 1 + g.uni(g.p.MaxOps, "nops")
 	for i := 0; i < n; i++ {
 		prog.Ops = append(prog.Ops, g.Op())
